@@ -594,6 +594,11 @@ func child() {
 		hammer(cr, kind, to)
 	} else if os.Getenv("C12_MODE") == "samename" {
 		sameName(cr, kind, to)
+	} else if os.Getenv("C12_MODE") == "filters" {
+		for i := from; i < to; i++ {
+			filterRun(cr, kind, i, os.Getenv("C12_RACE") == "1")
+		}
+		exportFilterStats(cr)
 	} else {
 		for h := from; h < to; h++ {
 			history(cr, h, kind)
@@ -627,9 +632,19 @@ func main() {
 	}
 	jobs = append(jobs, job{kit.SJSON, "hammer", 0, r.Pick(150, 1500), false})
 	jobs = append(jobs, job{kit.SJSON, "samename", 0, r.Pick(3000, 20000), false})
+	// list filters that modify the slices / descriptors they are handed (filters.go): Streamable JSON, Streamable SSE
+	// and legacy SSE servers; run indices are disjoint so that every run has its own PRNG stream
+	fb := r.Pick(1, 4)
+	for b := 0; b < r.Pick(2, 4); b++ {
+		jobs = append(jobs, job{kit.SJSON, "filters", b * fb, (b + 1) * fb, false}, job{kit.LSSE, "filters", b * fb, (b + 1) * fb, false})
+	}
+	for b := 0; b < r.Pick(1, 2); b++ {
+		jobs = append(jobs, job{kit.SSSE, "filters", b * fb, (b + 1) * fb, false})
+	}
 	raceBin := os.Getenv("VH_RACE_BIN")
 	if _, err := os.Stat(raceBin); err == nil {
 		jobs = append(jobs, job{kit.SJSON, "hammer", 0, r.Pick(60, 600), true}, job{kit.SJSON, "hist", 100000, 100000 + r.Pick(20, 200), true})
+		jobs = append(jobs, job{kit.SJSON, "filters", 1000, 1000 + r.Pick(1, 3), true}, job{kit.LSSE, "filters", 1000, 1000 + r.Pick(1, 3), true})
 	} else {
 		r.Note("race-detector flavour not built: race part skipped")
 	}
@@ -652,7 +667,7 @@ func main() {
 				for _, f := range old {
 					os.Remove(f)
 				}
-				env = append(env, "GORACE=halt_on_error=0 log_path="+logPrefix)
+				env = append(env, "C12_RACE=1", "GORACE=halt_on_error=0 log_path="+logPrefix)
 				res = r.SpawnChildBin(raceBin, "c12", tag, nil, env, nil, 15*time.Minute)
 			} else {
 				res = r.SpawnChild("c12", tag, nil, env, nil, 15*time.Minute)
@@ -685,8 +700,12 @@ func main() {
 		}(i, j)
 	}
 	wg.Wait()
-	r.Finish("concurrent histories (4-6 workers x 5-8 ops, 3-4 names per registry) of register / unregister / list / call over the tools, prompts and resources registries of a Streamable server (JSON and SSE answers), recorded at the API boundary (in-process Register*/Unregister*, raw client sessions for list/call/get/read); every registration carries a version tag that the descriptor and the handler both expose, so a read identifies the write; each registry's history is checked for linearizability with porcupine against an ordered-map model (tools/prompts lists as sets, resources as a sequence; entries registered throughout must always be callable; never-registered ones must fail). Hammer phase: 4 mutator goroutines + 6 client sessions, in a normal and a race-detector child; process death (concurrent map access) and race reports on registry functions refute. Distinct = (server kind, registry, history size bucket).",
-		[]string{"checker timeouts are inconclusive", "the static lockset analysis named in the property's anchor is replaced by the race detector and the runtime map-access detector on the driven paths"})
+	if r.Counter("filter_views_evaluated") == 0 || r.Counter("filter_calls_that_rewrote_their_argument") == 0 || r.Counter("filter_calls_non_admin") == 0 {
+		r.Fatal("the list-filter scenarios observed nothing: %d views evaluated, %d filter calls by restricted roles, %d of them rewrote their argument",
+			r.Counter("filter_views_evaluated"), r.Counter("filter_calls_non_admin"), r.Counter("filter_calls_that_rewrote_their_argument"))
+	}
+	r.Finish("concurrent histories (4-6 workers x 5-8 ops, 3-4 names per registry) of register / unregister / list / call over the tools, prompts and resources registries of a Streamable server (JSON and SSE answers), recorded at the API boundary (in-process Register*/Unregister*, raw client sessions for list/call/get/read); every registration carries a version tag that the descriptor and the handler both expose, so a read identifies the write; each registry's history is checked for linearizability with porcupine against an ordered-map model (tools/prompts lists as sets, resources as a sequence; entries registered throughout must always be callable; never-registered ones must fail). Hammer phase: 4 mutator goroutines + 6 client sessions, in a normal and a race-detector child; process death (concurrent map access) and race reports on registry functions refute. Distinct = (server kind, registry, history size bucket). List-filter scenarios (filters.go): Streamable (JSON, SSE answers) and legacy SSE servers whose tool / prompt / resource list filters take the caller's role from a request header (context function) and MODIFY the slice they are handed the way user filters do (filter in place with in[:0], clear the tail, sort, reverse, rotate, truncate, nil entries out, delete with the append idiom, append, prepend; control: allocate) while role admin gets its argument back untouched; role,admin,role,admin sequences on every registry with registrations in between, then every role listing concurrently on its own session with one writer goroutine per registry (register / replace / unregister tools, paced by list counts) and a goroutine that reads GetTools / GetTool and scribbles on the copies, then quiescent lists. One writer per registry makes the mutation history a sequence of states; every view, stamped by a logical clock, must be the caller's filter applied (by the harness, on a private copy) to one of the states the registry had between the view's start and end: resources as a sequence (registration order), tools / prompts as a multiset, descriptors included. Descriptor field mutation through the handed pointers is exercised one request at a time; names and order of the following lists are judged, leaked field values only counted. Distinct there = (server kind, registry, role, phase).",
+		[]string{"checker timeouts are inconclusive", "the statement does not promise that a descriptor field changed by a list filter through the pointer it was handed stays invisible to later lists (the registry hands out its own descriptors): counted, not judged", "a list that is not answered within the 120 s watchdog, or a session that cannot be opened, is inconclusive", "the static lockset analysis named in the property's anchor is replaced by the race detector and the runtime map-access detector on the driven paths"})
 }
 
 func head(s string) string {
